@@ -9,7 +9,7 @@
   The selection thresholds themselves are not modelled: the theorems hold for both outcomes.
 
   Join strategy (`Merge._lower`, models in Layers/KnobJoin.lean, lemmas in Lemmas/Knobs.lean):
-    C10_join_hash_spec / C10_join_hash_partitioned   hash join = join of the concatenated inputs, every `how`
+    C10_join_hash_spec / C10_join_hash_partitioned / C10_join_hash_run   hash join = join of the concatenated inputs, every `how`
     C10_join_broadcast_spec / C10_join_broadcast_run BroadcastJoin (plan / real `_layer` graph) = the same join,
                                                      for the `how × broadcast side` pairs in `allowed`
     C10_join_single_spec                             single-partition broadcast (BlockwiseMerge)
@@ -20,7 +20,7 @@
     C10_join_broadcast_wf                            the BroadcastJoin layer is closed and acyclic
   Sort / set_index partition count (Layers/KnobSort.lean):
     C10_sort_perm / C10_sort_sorted / C10_sort_npartitions / C10_sort_divsOK_sound / C10_sort_shuffle_run
-    C10_sort_below_first_division_counterexample
+    C10_sort_below_first_division_counterexample / C10_sort_presorted (the no-shuffle fast path)
   split_out (Layers/KnobReduce.lean):
     C10_split_out / C10_split_out_npartitions / C10_split_out_run
 -/
@@ -125,6 +125,29 @@ theorem C10_join_hash_partitioned {κ} [DecidableEq κ] (how : How) (p₁ p₂ :
     obtain ⟨i, _, hri⟩ := List.mem_flatMap.mp hr
     rw [ha₂ i r hri, hn]
 
+/-- …and through the two real SimpleShuffle graphs (`C12_simple`): `merge_chunk` of the evaluated output
+    partitions `o` of both shuffles, concatenated over `o`. -/
+theorem C10_join_hash_run {κ} [DecidableEq κ] (how : How) (I : Interp) (p₁ p₂ : Shuffle.Params)
+    (rows₁ rows₂ : Nat → List Row) (kL kR : Row → κ) (h : κ → Nat) (hn : p₁.nout = p₂.nout) (hpos : 0 < p₁.nout)
+    (ha₁ : ∀ i, ∀ r ∈ rows₁ i, r.tgt = h (kL r) % p₁.nout)
+    (ha₂ : ∀ i, ∀ r ∈ rows₂ i, r.tgt = h (kR r) % p₂.nout)
+    (hp₁ : p₁.parts = List.range p₁.nout) (hp₂ : p₂.parts = List.range p₂.nout) :
+    ((List.range p₁.nout).flatMap (fun o =>
+        match run I (simpleTask p₁) (inputs rows₁) 3 (.out .self o), run I (simpleTask p₂) (inputs rows₂) 3 (.out .self o) with
+        | .frame a, .frame b => joinSpec how kL kR a b
+        | _, _ => [])).Perm
+      (joinSpec how kL kR (allRows p₁.nin rows₁) (allRows p₂.nin rows₂)) := by
+  refine List.Perm.trans (List.Perm.of_eq ?_) (C10_join_hash_partitioned how p₁ p₂ rows₁ rows₂ kL kR h hn hpos ha₁ ha₂)
+  apply flatMap_congr'
+  intro o ho
+  have ho₁ := List.mem_range.mp ho
+  obtain ⟨hl₁, e₁⟩ := parts_range p₁ hp₁ o ho₁
+  obtain ⟨hl₂, e₂⟩ := parts_range p₂ hp₂ o (hn ▸ ho₁)
+  rw [C12_simple I p₁ rows₁ o hl₁ (parts_range_lt p₁ hp₁)
+      (fun i r hr => by rw [ha₁ i r hr]; exact Nat.mod_lt _ hpos),
+    C12_simple I p₂ rows₂ o hl₂ (parts_range_lt p₂ hp₂)
+      (fun i r hr => by rw [ha₂ i r hr]; exact Nat.mod_lt _ (hn ▸ hpos)), e₁, e₂]
+
 /-- the join of the whole frames with the sides in left/right order -/
 abbrev specFor {κ} [DecidableEq κ] (how : How) (side : Side) (kL kR : Row → κ) (other B : List Row) : List JRow :=
   match side with
@@ -220,6 +243,24 @@ example : (hashPlan .outer kp kp id 3 (catRows 3 big) (catRows 2 small)).Perm
     (joinSpec .outer kp kp (catRows 3 big) (catRows 2 small)) :=
   C10_join_hash_spec .outer kp kp id 3 (by decide) _ _
 example : (joinSpec .outer kp kp (catRows 3 big) (catRows 2 small)).length = 8 := by decide
+
+open C02Ex in
+example : ((List.range 7).flatMap (fun o =>
+      match run C12Ex.I0 (simpleTask C12Ex.pNeAll) (inputs jrows₁) 3 (.out .self o),
+            run C12Ex.I0 (simpleTask C12Ex.pNeAll) (inputs jrows₂) 3 (.out .self o) with
+      | .frame a, .frame b => joinSpec .outer (fun r => r.pay) (fun r => r.pay) a b
+      | _, _ => [])).Perm
+    (joinSpec .outer (fun r => r.pay) (fun r => r.pay) (allRows 3 jrows₁) (allRows 3 jrows₂)) :=
+  C10_join_hash_run .outer C12Ex.I0 C12Ex.pNeAll C12Ex.pNeAll jrows₁ jrows₂ (fun r => r.pay) (fun r => r.pay)
+    (fun k => 3 * k) rfl (by decide)
+    (by
+      intro i r hr
+      simp only [jrows₁, List.mem_cons, List.not_mem_nil, or_false] at hr
+      rcases hr with rfl | rfl <;> rfl)
+    (by
+      intro i r hr
+      simp only [jrows₂, List.mem_singleton] at hr
+      subst hr; rfl) (by decide) (by decide)
 
 example : (bcastPlan .inner .right kp kp id 3 2 big small).Perm
     (joinSpec .inner kp kp (catRows 3 big) (catRows 2 small)) :=
@@ -392,6 +433,55 @@ theorem C10_sort_shuffle_run (I : Interp) (p : Shuffle.Params) (rows : Nat → L
 theorem C10_sort_below_first_division_counterexample :
     (sortPlan (stableSort true) [5, 10, 15] true [⟨12, 0, 0⟩, ⟨1, 0, 1⟩, ⟨7, 0, 2⟩]).map (·.idx) = [7, 1, 12] := by
   decide
+
+/-- Presorted fast path (`SortValues._lower` / `SetIndex._lower` skip the shuffle when
+    `_calculate_divisions` reports `presorted` and the partition count is unchanged): if the flag computed from
+    the per-partition minima and maxima is true — minima in order, maxima in order, and each partition's
+    maximum strictly before its successor's minimum — then sorting every input partition in place returns a
+    permutation of the input in the requested order, with the same key sequence as the shuffle path. -/
+theorem C10_sort_presorted (srt : List Row → List Row) (hperm : ∀ l, (srt l).Perm l) (asc : Bool)
+    (hsorted : ∀ l, (srt l).Pairwise (before asc)) (ps : List (List Row × Int × Int))
+    (hb : ∀ q ∈ ps, ∀ r ∈ q.1, q.2.1 ≤ r.idx ∧ r.idx ≤ q.2.2)
+    (hg : presorted asc (ps.map (·.2)) = true) :
+    (presortedPlan srt (ps.map (·.1))).Perm (ps.flatMap (·.1)) ∧
+    (presortedPlan srt (ps.map (·.1))).Pairwise (before asc) ∧
+    (presortedPlan srt (ps.map (·.1))).map (·.idx) = (stableSort asc (ps.flatMap (·.1))).map (·.idx) := by
+  have e : presortedPlan srt (ps.map (·.1)) = ps.flatMap (fun q => srt q.1) := by
+    unfold presortedPlan; rw [List.flatMap_map]
+  have hp : (presortedPlan srt (ps.map (·.1))).Perm (ps.flatMap (·.1)) := by
+    rw [e]; exact perm_flatMap_congr ps _ _ (fun q _ => hperm q.1)
+  have hs : (presortedPlan srt (ps.map (·.1))).Pairwise (before asc) := by
+    rw [e, List.pairwise_flatMap]
+    refine ⟨fun q _ => hsorted _, ?_⟩
+    have hno := List.pairwise_map.mp (presorted_nonoverlap asc (ps.map (·.2)) hg)
+    refine List.Pairwise.imp_of_mem ?_ hno
+    intro q₁ q₂ h₁ h₂ hsep x hx y hy
+    have bx := hb q₁ h₁ x ((hperm _).mem_iff.mp hx)
+    have b_y := hb q₂ h₂ y ((hperm _).mem_iff.mp hy)
+    cases asc
+    · simp only [Bool.false_eq_true, if_false] at hsep
+      show y.idx ≤ x.idx
+      omega
+    · simp only [if_true] at hsep
+      show x.idx ≤ y.idx
+      omega
+  exact ⟨hp, hs, sorted_perm_keys_eq asc (hp.trans (stableSort_perm asc _).symm) hs (stableSort_sorted asc _)⟩
+
+namespace C10Ex
+/-- a descending presorted layout `30..26 | 25..20 | 12` and a staggered one (ranges overlap) -/
+def pparts : List (List Row × Int × Int) :=
+  [([⟨26, 0, 0⟩, ⟨30, 0, 1⟩], 26, 30), ([⟨20, 0, 2⟩, ⟨25, 0, 3⟩, ⟨21, 0, 4⟩], 20, 25), ([⟨12, 0, 5⟩], 12, 12)]
+end C10Ex
+
+example : (presortedPlan (stableSort false) (C10Ex.pparts.map (·.1))).map (·.idx) =
+    (stableSort false (C10Ex.pparts.flatMap (·.1))).map (·.idx) :=
+  (C10_sort_presorted (stableSort false) (stableSort_perm false) false (stableSort_sorted false) C10Ex.pparts
+    (by decide) (by decide)).2.2
+example : (presortedPlan (stableSort false) (C10Ex.pparts.map (·.1))).map (·.idx) = [30, 26, 25, 21, 20, 12] := by decide
+/-- staggered descending chunks 30..20 | 25..15 | 20..10: minima and maxima both decrease but the ranges
+    overlap — the flag must be (and is) false, the shuffle path is taken -/
+example : presorted false [(20, 30), (15, 25), (10, 20)] = false ∧ presorted false [(26, 30), (20, 25), (12, 12)] = true ∧
+    presorted true [(0, 3), (3, 5)] = false ∧ presorted true [(0, 3), (4, 5)] = true := by decide
 
 namespace C10Ex
 def srows : List Row := [⟨12, 0, 0⟩, ⟨5, 0, 1⟩, ⟨7, 0, 2⟩, ⟨5, 0, 3⟩, ⟨30, 0, 4⟩, ⟨9, 0, 5⟩]
